@@ -19,12 +19,15 @@ LEVEL_TEXT = ("Decides, for every declaration at once (the analysis is of the ge
               "new_for_types build every field but `handler` from the same sources with the declared defaults; (R5) the macro's MIME strings and methods are accepted by from_mime_type / gen_openapi's slot "
               "table; (R6) gen_openapi copies summary/description/tags/deprecated/operation_id from the same-named endpoint fields, on the visible edge only, into the slot chosen by that endpoint's method; "
               "(R7) `..`/`a..`/`..b`/`a..b` parse to All/From/Until/FromUntil with operands in source order, literal pairs are refused iff until < earliest, and each kind emits the matching "
-              "ApiEndpointVersions constructor with bounds in (earliest, until) order; (R8) summary and description are cut from one stream of the item's doc lines and no fold step drops text. "
+              "ApiEndpointVersions constructor with bounds in (earliest, until) order; (R8) summary and description are cut from one stream of the item's doc lines and no accumulation step (fold closure or loop body) drops text. "
+              "The rules read data flow and branch conditions, not statement shapes: helpers split off a decided function are inlined first; iterator chain / for loop, Option::map / if let / `?`, "
+              "bool::then / if-else, unwrap_or / map_or / match, early return / if-else and to_string / to_owned / String::from are decided alike. "
               "Residue: the per-line string surgery of ExtractedDoc::from_attrs / normalize_comment_string (trimming, `*` prefixes, paragraph breaks), agreement of the trait stub's extractor-type list with "
               "the real handler's argument types, serde's derive mapping attribute names to EndpointMetadata fields, rustc's own type-checking of the emitted tokens, routing by method/path/versions "
               "(C01/C02/C05) and the body limit's enforcement (C11).")
-LEVEL_NOTE = ("Trusted base: rustc MIR construction, the extractor, rules/lib_c19.py (quote! template evaluator, ~750 lines), semantics of quote's push_*/ToTokens, Option::map/bool::then/Iterator::map "
-              "summaries; format_ident!'s template is checked only for absence of literal text.")
+LEVEL_NOTE = ("Trusted base: rustc MIR construction, the extractor, the engine's inlining of unlisted helpers, rules/lib_c19.py (quote! template evaluator, ~1100 lines), semantics of quote's push_*/ToTokens, "
+              "the evaluator's summaries of Option::map/map_or, bool::then, Iterator::map, `?` on Option/Result, and of a vector filled by one push per iteration of a `for` loop (= map+collect); "
+              "format_ident!'s template is checked only for absence of literal text.")
 EXPLANATION = ("TABLE/SIBLINGS-AGREE/WHO-CALLS rules over symbolic token templates recovered from the MIR of dropshot_endpoint (each instance = one emitted call argument, builder call, struct field, "
                "caller argument or table row) plus CHAIN/SHAPE rules over ApiEndpoint's constructors, builder methods and gen_openapi in dropshot.")
 TRUSTED = ["rustc nightly MIR + const evaluation", "mirfacts extractor", "rules/lib_c19.py quote! template evaluator", "quote/proc_macro2 token push semantics",
@@ -36,7 +39,8 @@ VMETA = "metadata::ValidatedEndpointMetadata"
 # value-preserving plumbing allowed between a metadata field and the hole that interpolates it
 PLUMB = [r"ops::Deref::deref$", r"convert::AsRef::as_ref$", r"Option::<T>::as_ref$", r"Option::<T>::as_deref$", r"clone::Clone::clone$", r"borrow::Borrow::borrow$",
          r"String::as_str$", r"slice::<impl \[T\]>::iter$", r"iter::IntoIterator::into_iter$", r"iter::Iterator::collect$", r"RepAsIteratorExt::quote_into_iter$",
-         r"RepIteratorExt::quote_into_iter$", r"iter::Iterator::next$", r"convert::Into::into$", r"convert::From::from$"]
+         r"RepIteratorExt::quote_into_iter$", r"iter::Iterator::next$", r"convert::Into::into$", r"convert::From::from$", r"Option::<&T>::(cloned|copied)$"]
+OPT_PLUMB = re.compile(r"Option::<T>::(as_ref|as_deref)$|Option::<&T>::(cloned|copied)$")   # looked through (besides lib_c19.ITER_PLUMB) when naming the field a value is a copy of
 STR_CONV = [r"string::ToString::to_string$", r"borrow::ToOwned::to_owned$"]   # &str -> String (From/Into are in PLUMB)
 FMT = [r"^core::fmt::", r"^std::fmt::", r"fmt::rt::Argument", r"fmt::Arguments", r"^std::hint::must_use$", r"quote::__private::mk_ident$", r"IdentFragmentAdapter", r"Option::<T>::or$"]
 
@@ -367,9 +371,11 @@ def _factory_kind(ctx, R, q0):
         fr = Q.Frame(g)
         seen = {}
         for bb, t in g.live_calls(r"::to_api_endpoint_impl$"):
-            gs = [gv for gt, gv in q0.guards_of(fr, bb) if gt == ("param", 3, g.local_name(3))]
-            k = q0.ev_op(fr, t["args"][2])
-            seen[gs[0] if len(gs) == 1 else "?"] = (k, bb, t)
+            # one call per FactoryKind arm, or one call whose kind argument was chosen by the match: per (call, alternative)
+            for gs, k in Q.flat_arms(q0.ev_op(fr, t["args"][2]), q0.guards_of(fr, bb)):
+                fks = set(gv for gt, gv in gs if gt == ("param", 3, g.local_name(3)))
+                fk = list(fks)[0] if len(fks) == 1 else "?"
+                seen[fk] = (k, bb, t) if fk not in seen else (("unknown", "several calls for FactoryKind::%s" % fk), bb, t)
         for fk in ("Regular", "Stub"):
             if fk not in seen:
                 ctx.check(R, "factory-kind-selects:%s:%s" % (which, fk), False, "no to_api_endpoint_impl call on the FactoryKind::%s arm" % fk, g)
@@ -847,11 +853,11 @@ def r4_new_vs_stub(ctx):
 # =========================================================================== R5
 def _match_table(q, f):
     """For a fn whose return value is chosen by string comparisons / a discriminant: [(key, value term)]."""
-    t = q.ev_local(Q.Frame(f), 0)
+    t = Q.lift_alts(q.ev_local(Q.Frame(f), 0))
     rows = []
     if t[0] != "alt":
         return rows
-    for g, v in t[1]:
+    for g, v in Q.flat_arms(t):
         key = None
         for gt, gv in g:
             if gt[0] == "call" and re.search(r"PartialEq::eq$", gt[1]) and gv is True:
@@ -970,7 +976,7 @@ def r6_document(ctx):
             if name == "operation_id":
                 ok = ok and v[0] == "agg" and v[2] == "Some"
                 inner = v[3][0] if v[0] == "agg" and v[3] else v
-            core = Q.strip_plumb(inner)
+            core = Q.strip_plumb(inner, OPT_PLUMB)
             src_ok = core[0] == "field" and core[2] == name and any(re.search(r"HttpRouter::<Context>::endpoints$", c) for c in Q.callees(core)) and not _only(inner, PLUMB + [r"HttpRouter::<Context>::endpoints$"])
             if src_ok:
                 ep_root = ep_root or Q.nosite(core[1])
@@ -1226,11 +1232,11 @@ def _accumulations(ep, q0, f, fr, term, is_stream):
                 arms = Q.flat_arms(q0.value(g, 0)[0])
             out.append({"node": x, "how": "Iterator::fold", "stream": x[2][0], "inits": [x[2][1]], "arms": arms, "site": g or f,
                         "is_acc": lambda y: y == ("arg", 2), "is_line": lambda y: y == ("arg", 3)})
-    for n in sorted(set(y[1] for y in Q.walk(term) if y[0] == "cycle")):
-        T = q0.ev_local(fr, n)
-        if T[0] != "alt" or T in [o["node"] for o in out]:
+    for mark in sorted(set(y for y in Q.walk(term) if y[0] == "cycle")):
+        T = q0.loops.get(mark[1:])
+        if T is None or T[0] != "alt" or T in [o["node"] for o in out]:
             continue
-        mine = lambda v, n=n: ("cycle", n) in list(Q.walk(v))
+        mine = lambda v, mark=mark: mark in list(Q.walk(v))
         steps = [(g, v) for g, v in T[1] if mine(v)]
         inits = [v for g, v in T[1] if not mine(v)]
         if not steps or not inits:
@@ -1245,7 +1251,7 @@ def _accumulations(ep, q0, f, fr, term, is_stream):
         for g, v in steps:
             arms.extend(Q.flat_arms(v, g))
         out.append({"node": T, "how": "loop-carried local", "stream": stream or ("unknown", "loop not driven by Iterator::next"), "inits": inits, "arms": arms, "site": f,
-                    "is_acc": lambda y, n=n: y == ("cycle", n), "is_line": lambda y: y[0] == "item" and is_stream(y[1])})
+                    "is_acc": lambda y, mark=mark: y == mark, "is_line": lambda y: y[0] == "item" and is_stream(y[1])})
     return out
 
 
@@ -1445,4 +1451,49 @@ SELFTEST = [
     {"name": "document-slot-assigned", "kind": "benign",
      "edits": [(_A, "            method_ref.replace(operation);", "            *method_ref = Some(operation);")],
      "why": "behaviour-preserving: Option::replace written as an assignment of Some(..)"},
+    # ---- shapes taken from the independent benign corpus (benign/C19-R1..R4, C19-X1)
+    {"name": "tags-collected-by-for-loop", "kind": "benign",
+     "edits": [(_M, "        let tags = self\n            .tags\n            .iter()\n            .map(|tag| {\n                quote_spanned! {span=> .tag(#tag) }\n            })\n            .collect::<Vec<_>>();",
+                "        let mut tags = Vec::with_capacity(self.tags.len());\n        for tag in &self.tags {\n            tags.push(quote_spanned! {span=> .tag(#tag) });\n        }")],
+     "why": "behaviour-preserving: iter().map(..).collect() written as a for loop pushing into a vector (one token stream created per iteration)"},
+    {"name": "body-limit-helper-with-question-mark", "kind": "benign",
+     "edits": [(_M, "        let request_body_max_bytes =\n            self.request_body_max_bytes.as_ref().map(|max_bytes| {\n                quote_spanned! {span=> .request_body_max_bytes(#max_bytes) }\n            });",
+                "        let request_body_max_bytes = self.body_limit_call(span);"),
+               (_M, "impl ValidatedEndpointMetadata {\n    pub(crate) fn to_api_endpoint_fn(",
+                "impl ValidatedEndpointMetadata {\n    fn body_limit_call(&self, span: proc_macro2::Span) -> Option<TokenStream> {\n        let max_bytes = self.request_body_max_bytes.as_ref()?;\n        Some(quote_spanned! {span=> .request_body_max_bytes(#max_bytes) })\n    }\n\n    pub(crate) fn to_api_endpoint_fn(")],
+     "why": "behaviour-preserving: Option::map(closure) moved into a helper method written with `?` and Some(..)"},
+    {"name": "literal-order-check-in-helper", "kind": "benign",
+     "edits": [(_M, "                // If both endpoints are literals, we can check if they're\n                // in the right order.\n                if let (\n                    VersionSpecifier::Literal(earliest_semver),\n                    VersionSpecifier::Literal(latest_semver),\n                ) = (&earliest, &latest)\n                {\n                    let span = dotdot.to_token_stream();\n                    if latest_semver < earliest_semver {\n                        return Err(syn::Error::new_spanned(\n                            span,\n                            format!(\n                                \"\\\"from\\\" version ({}) must be earlier than \\\n                                 \\\"until\\\" version ({})\",\n                                earliest_semver, latest_semver,\n                            ),\n                        ));\n                    }\n                }\n",
+                "                check_literal_order(&dotdot, &earliest, &latest)?;\n"),
+               (_M, "fn parse_semver(v: &syn::LitStr) -> syn::Result<semver::Version> {",
+                "fn check_literal_order(\n    dotdot: &syn::Token![..],\n    from: &VersionSpecifier,\n    until: &VersionSpecifier,\n) -> syn::Result<()> {\n    match (from, until) {\n        (VersionSpecifier::Literal(a), VersionSpecifier::Literal(b)) if a > b => Err(syn::Error::new_spanned(\n            dotdot.to_token_stream(),\n            format!(\"\\\"from\\\" version ({}) must be earlier than \\\"until\\\" version ({})\", a, b),\n        )),\n        _ => Ok(()),\n    }\n}\n\nfn parse_semver(v: &syn::LitStr) -> syn::Result<semver::Version> {")],
+     "why": "behaviour-preserving: the both-literals ordering check moved into a helper returning Result<()> (match with a guard, `from > until`), propagated with `?`"},
+    {"name": "doc-fold-as-loop", "kind": "benign",
+     "edits": [("dropshot_endpoint/src/doc.rs", "            lines\n                .fold(first, |acc, comment| {\n                    if acc.ends_with('-')\n                        || acc.ends_with('\\n')\n                        || acc.is_empty()\n                    {\n                        // Continuation lines and newlines.\n                        format!(\"{}{}\", acc, comment)\n                    } else if comment.is_empty() {\n                        // Blank lines get a markdown paragraph break (unless\n                        // acc already ends in '\\n' -- see above)\n                        format!(\"{}\\n\\n\", acc)\n                    } else {\n                        // Default to space-separating comment fragments.\n                        format!(\"{} {}\", acc, comment)\n                    }\n                })\n                .trim_end()\n                .to_string()",
+                "            let mut acc = first;\n            while let Some(comment) = lines.next() {\n                acc = if acc.ends_with('-')\n                    || acc.ends_with('\\n')\n                    || acc.is_empty()\n                {\n                    format!(\"{}{}\", acc, comment)\n                } else if comment.is_empty() {\n                    format!(\"{}\\n\\n\", acc)\n                } else {\n                    format!(\"{} {}\", acc, comment)\n                };\n            }\n            acc.trim_end().to_owned()")],
+     "why": "behaviour-preserving: Iterator::fold written as a loop over the same iterator with a loop-carried accumulator; to_string -> to_owned"},
+    {"name": "stub-path-string-from", "kind": "benign",
+     "edits": [(_A, "            handler,\n            method,\n            path: path.to_string(),", "            handler,\n            method,\n            path: String::from(path),")],
+     "why": "behaviour-preserving: &str -> String by String::from in one constructor and to_string in the other"},
+    {"name": "trait-kind-built-then-one-call", "kind": "benign",
+     "edits": [("dropshot_endpoint/src/api_trait.rs", "                let path_to_name = quote_spanned! {self.attr.span()=>\n                    <ServerImpl as #trait_ident>::#name\n                };\n                self.to_api_endpoint_impl(\n                    dropshot,\n                    &ApiEndpointKind::Regular(&path_to_name),\n                )\n            }\n            FactoryKind::Stub => {\n                let extractor_types = self.params.extractor_types().collect();\n                let ret_ty = self.params.ret_ty;\n                self.to_api_endpoint_impl(\n                    dropshot,\n                    &ApiEndpointKind::Stub {\n                        attr: &self.attr,\n                        extractor_types,\n                        ret_ty,\n                    },\n                )\n            }\n        }\n",
+                "                path_to_name = quote_spanned! {self.attr.span()=>\n                    <ServerImpl as #trait_ident>::#name\n                };\n                ApiEndpointKind::Regular(&path_to_name)\n            }\n            FactoryKind::Stub => {\n                let extractor_types = self.params.extractor_types().collect();\n                let ret_ty = self.params.ret_ty;\n                ApiEndpointKind::Stub {\n                    attr: &self.attr,\n                    extractor_types,\n                    ret_ty,\n                }\n            }\n        };\n        self.to_api_endpoint_impl(dropshot, &endpoint_kind)\n"),
+               ("dropshot_endpoint/src/api_trait.rs", "        match kind {\n            FactoryKind::Regular => {\n                let name = &self.f.sig.ident;\n                let trait_ident = self.trait_ident;\n",
+                "        let path_to_name;\n        let endpoint_kind = match kind {\n            FactoryKind::Regular => {\n                let name = &self.f.sig.ident;\n                let trait_ident = self.trait_ident;\n")],
+     "why": "behaviour-preserving: the two match arms build the ApiEndpointKind and one shared call follows the match"},
+    # ---- the same shapes must not blunt the rules: mutants written on top of a refactored form
+    {"name": "for-loop-tags-from-path", "kind": "mutant", "expect": ["C19.R2b"],
+     "edits": [(_M, "        let tags = self\n            .tags\n            .iter()\n            .map(|tag| {\n                quote_spanned! {span=> .tag(#tag) }\n            })\n            .collect::<Vec<_>>();",
+                "        let mut tags = Vec::with_capacity(self.tags.len());\n        for tag in &self.tags {\n            if !tag.is_empty() {\n                tags.push(quote_spanned! {span=> .tag(#tag) });\n            }\n        }")],
+     "why": "† (for-loop form) empty tags are silently dropped from the registration"},
+    {"name": "helper-order-check-result-ignored", "kind": "mutant", "expect": ["C19.R7"],
+     "edits": [(_M, "                // If both endpoints are literals, we can check if they're\n                // in the right order.\n                if let (\n                    VersionSpecifier::Literal(earliest_semver),\n                    VersionSpecifier::Literal(latest_semver),\n                ) = (&earliest, &latest)\n                {\n                    let span = dotdot.to_token_stream();\n                    if latest_semver < earliest_semver {\n                        return Err(syn::Error::new_spanned(\n                            span,\n                            format!(\n                                \"\\\"from\\\" version ({}) must be earlier than \\\n                                 \\\"until\\\" version ({})\",\n                                earliest_semver, latest_semver,\n                            ),\n                        ));\n                    }\n                }\n",
+                "                let _ = check_literal_order(&dotdot, &earliest, &latest);\n"),
+               (_M, "fn parse_semver(v: &syn::LitStr) -> syn::Result<semver::Version> {",
+                "fn check_literal_order(\n    dotdot: &syn::Token![..],\n    from: &VersionSpecifier,\n    until: &VersionSpecifier,\n) -> syn::Result<()> {\n    match (from, until) {\n        (VersionSpecifier::Literal(a), VersionSpecifier::Literal(b)) if a > b => Err(syn::Error::new_spanned(\n            dotdot.to_token_stream(),\n            format!(\"\\\"from\\\" version ({}) must be earlier than \\\"until\\\" version ({})\", a, b),\n        )),\n        _ => Ok(()),\n    }\n}\n\nfn parse_semver(v: &syn::LitStr) -> syn::Result<semver::Version> {")],
+     "why": "† (helper form) the ordering check's verdict is discarded: `\"2.0.0\"..\"1.0.0\"` is accepted and panics at registration"},
+    {"name": "loop-fold-drops-line", "kind": "mutant", "expect": ["C19.R8"],
+     "edits": [("dropshot_endpoint/src/doc.rs", "            lines\n                .fold(first, |acc, comment| {\n                    if acc.ends_with('-')\n                        || acc.ends_with('\\n')\n                        || acc.is_empty()\n                    {\n                        // Continuation lines and newlines.\n                        format!(\"{}{}\", acc, comment)\n                    } else if comment.is_empty() {\n                        // Blank lines get a markdown paragraph break (unless\n                        // acc already ends in '\\n' -- see above)\n                        format!(\"{}\\n\\n\", acc)\n                    } else {\n                        // Default to space-separating comment fragments.\n                        format!(\"{} {}\", acc, comment)\n                    }\n                })\n                .trim_end()\n                .to_string()",
+                "            let mut acc = first;\n            while let Some(comment) = lines.next() {\n                acc = if acc.ends_with('-')\n                    || acc.ends_with('\\n')\n                    || acc.is_empty()\n                {\n                    format!(\"{}{}\", acc, comment)\n                } else if comment.is_empty() {\n                    format!(\"{}\\n\\n\", acc)\n                } else {\n                    format!(\"{} \", acc)\n                };\n            }\n            acc.trim_end().to_owned()")],
+     "why": "† (loop form) every ordinary continuation line of a doc comment is dropped from the description"},
 ]
